@@ -44,6 +44,10 @@ def op_apply(tt: str, a: int, b: int, mask: int) -> int:
     return r & mask
 
 
+class _Rejected(Exception):
+    pass
+
+
 def brute_force(n, N, care, value, basis, cons, budget):
     """Does a circuit with exactly N two-input gates over `basis` exist that matches
     `value` on `care` for every output (each output at some internal gate) and obeys
@@ -294,6 +298,7 @@ class SynEngine:
         self.ev['call'] = desc
         st = self.res.stats.probes
         # --- drive the real code
+        rejected = None
         try:
             finder = cs.CircuitFinderSat(fm, N, basis=basis_arg, need_normalized=normalized)
             if bkind == 'custom' and rng.random() < 0.3:
@@ -310,10 +315,23 @@ class SynEngine:
             # a deliberately invalid constraint now and then: it must be rejected, and a rejected call imposes
             # nothing - the caller catches the error and goes on with the same finder
             if internal and rng.random() < 0.12:
-                bad = rng.choice(('absent', 'absent-pred', 'nopred', 'order', 'wire-order', 'wire-absent'))
+                bad = rng.choice(('absent', 'absent-pred', 'nopred', 'order', 'wire-order', 'wire-absent', 'not-a-two-input-type'))
                 gt = {'gate_type': self.GT[rng.choice(BIN_TYPES)]} if rng.random() < 0.6 else {}
+                if bad == 'not-a-two-input-type' and internal[-1] < 2:
+                    bad = 'nopred'
                 try:
-                    if bad == 'absent':
+                    if bad == 'not-a-two-input-type':
+                        # well-placed predecessors, but a gate type no two-input gate can have: whatever the call
+                        # raises, the caller that catches it has imposed nothing
+                        g = internal[-1]
+                        a, b = sorted(rng.sample(range(g), 2))
+                        try:
+                            finder.fix_gate(g, first_predecessor=a, second_predecessor=b, gate_type=self.GT[rng.choice(('NOT', 'IFF'))])
+                        except Exception as e:  # noqa
+                            st.bump(f'rejected-constraint-then-continued:{exc_name(e)}:not-a-two-input-type')
+                            rejected = 'not-a-two-input-type'
+                            raise _Rejected()
+                    elif bad == 'absent':
                         finder.fix_gate(n + N + 3, first_predecessor=0, **gt)
                     elif bad == 'absent-pred':
                         finder.fix_gate(internal[-1], first_predecessor=n + N + 5, **gt)
@@ -327,6 +345,8 @@ class SynEngine:
                         finder.forbid_wire(0, n + N + 2)
                     self.ev['out'] = 'accepted-invalid'
                     return
+                except _Rejected:
+                    pass
                 except Exception as e:  # noqa
                     if not is_instance_named(e, ('CircuitFinderError',)):
                         self.ev['out'] = f'rejected-with:{exc_name(e)}'
@@ -419,7 +439,8 @@ class SynEngine:
         if exc is not None:  # NoSolutionError
             self.ev['out'] = 'no-solution'
             if exists is True:
-                self.violate('completeness', self._cons_tag(cons_calls), f'NoSolutionError although a circuit exists: {desc}')
+                self.violate('completeness', (f'after-rejected:{rejected}' if rejected else self._cons_tag(cons_calls)),
+                             f'NoSolutionError although a circuit exists{" (a fix_gate call with " + rejected + " was rejected before and caught)" if rejected else ""}: {desc}')
             elif exists is False:
                 st.bump('no-solution-confirmed-by-brute-force')
             else:
@@ -472,7 +493,8 @@ class SynEngine:
                         if exc_name(exc2) != 'NoSolutionError':
                             self.violate('find-raised', f'{exc_name(exc2)}:after-added-constraint', f'{d2}: {exc_name(exc2)}: {exc2}')
                         elif exists2 is True:
-                            self.violate('completeness', 'after-added-constraint:' + self._cons_tag([extra]), f'NoSolutionError although a circuit exists: {d2}')
+                            self.violate('completeness', (f'after-rejected:{rejected}' if rejected else 'after-added-constraint:' + self._cons_tag([extra])),
+                                         f'NoSolutionError although a circuit exists: {d2}')
                     else:
                         if exists2 is False:
                             self.violate('soundness', 'circuit-where-none-exists:after-added-constraint', d2)
